@@ -98,8 +98,15 @@ pub fn align(t: &str, o: &str, strict: bool) -> Result<usize, String> {
                 return Err(format!("more than the line's indent ({}) emitted after a break", indent));
             }
         } else {
+            // styled: the break may fall inside a space run, but what follows it is the line's
+            // leading indent, no more and no less
+            let mut got = 0;
             while j < o.len() && o[j] == ' ' {
                 j += 1;
+                got += 1;
+            }
+            if got != indent {
+                return Err(format!("{} spaces emitted after a break before input char {}, the line's indent is {}", got, i, indent));
             }
         }
         breaks += 1;
